@@ -207,14 +207,22 @@ class Run:
         self.theorems = thms
         closed = len(re.findall(r"Closed under the global context", o))
         axioms = set()
-        for blk in re.findall(r"Axioms:\n((?:.+\n?)+?)(?=\n\S|\Z)", o):
-            for ln in blk.splitlines():
-                m = re.match(r"^(\S+)\s*:", ln)
+        in_ax = False
+        for ln in o.splitlines():
+            if ln.strip() == "Axioms:":
+                in_ax = True
+                continue
+            if ln.startswith("Closed under the global context"):
+                in_ax = False
+                continue
+            if in_ax:
+                if ln[:1] in (" ", "\t") or not ln.strip():
+                    continue          # continuation of the previous axiom's type
+                m = re.match(r"^([A-Za-z_][\w.']*)", ln)
                 if m:
                     axioms.add(m.group(1))
-        # simpler, robust: any line "name : type" directly after "Axioms:" handled above; also scan
-        for m in re.finditer(r"^([A-Za-z_][\w.']*)\s+:\s", o, re.M):
-            pass
+                else:
+                    in_ax = False
         self.assumptions = sorted(axioms)
         n_pa = len(re.findall(r"^\s*Print Assumptions", src, re.M))
         if rc != 0:
